@@ -255,7 +255,13 @@ def prop_sdc(case, r):
     r.check(all(type(x) is P.dtype_u for x in integ), 'integrate-type', 'integrate must return dtype_u')
 
     # ---- one sweep
-    sweep.update_nodes()
+    try:
+        sweep.update_nodes()
+    except np.linalg.LinAlgError:
+        # the fixture's node solve (numpy) hit an exactly singular I - dt*QD_mm*A (e.g. A = 2, dt*QD_mm = 1/2): same class as the
+        # ill-conditioned systems discarded below; the statement is about the iteration, not about solvability of a singular node system
+        r.discard('node system exactly singular')
+        return
     U_new = np.array([np.asarray(x) for x in L.u[1:]])
     if sw in ('generic_implicit', 'explicit'):
         QD = np.asarray(sweep.QI if sw == 'generic_implicit' else sweep.QE, float)[1:, 1:]
@@ -429,7 +435,11 @@ def prop_rk(case, r):
     u0c = np.asarray(u0).copy()
     f0c = np.array(L.f[0], copy=True)
     P.calls.clear()
-    sweep.update_nodes()
+    try:
+        sweep.update_nodes()
+    except np.linalg.LinAlgError:
+        r.discard('node system exactly singular')
+        return
     tm = t0 + dt * c
     I = np.eye(n)
     if imex:
@@ -572,7 +582,11 @@ def prop_verlet(case, r):
     sc = max(1.0, np.abs(Fold).max(), np.abs(v0).max())
     r.close(np.abs(ip - ep).max(), 1e-12 * sc * M, 'verlet-integrate-pos')
     r.close(np.abs(iv - evl).max(), 1e-12 * sc * M, 'verlet-integrate-vel')
-    sweep.update_nodes()
+    try:
+        sweep.update_nodes()
+    except np.linalg.LinAlgError:
+        r.discard('node system exactly singular')
+        return
     # reference: node by node, dense algebra
     Xn = np.zeros((M, n))
     Vn = np.zeros((M, n))
